@@ -47,6 +47,12 @@ MUTANTS = [
      '            .attribute("name")\n            .unwrap()\n            .to_string();\n\n        let rust_name', "unwrap on input"),
     ("C13", "R2", DOC, "                if doc.resolving.iter().any(|name| name == xml_name) {\n                    return Err(WriterError::InvalidReference);\n                }\n", "", "visited guard removed"),
     ("C17", "R3", MAIN, 'with_extension("rs")', 'with_extension("txt")', "wrong default extension"),
+    ("C17", "R3", MAIN, "|f| Path::new(f).to_path_buf());", '|f| Path::new(f).with_extension("rs"));', "--output path gets its extension replaced"),
+    ("C17", "R3", MAIN, 'let output_file = to_file_name.map_or_else(|| from_file_path.with_extension("rs"), |f| Path::new(f).to_path_buf());',
+     'let output_file = match to_file_name {\n        Some(f) if f.ends_with(".rs") => Path::new(f).to_path_buf(),\n        _ => from_file_path.with_extension("rs"),\n    };', "--output ignored unless it ends in .rs"),
+    ("C17", "R1", MAIN, '    let document = XmlReader::read_xml(&files).expect("can not read xml");\n    let mut buffer = Vec::new();\n    document.write_xml(&mut buffer).expect("can not write xml");\n    std::fs::write(output_file, buffer).expect("can not write file");',
+     '    let document = XmlReader::read_xml(&files).expect("can not read xml");\n    let mut buffer = Vec::new();\n    touch(&output_file);\n    document.write_xml(&mut buffer).expect("can not write xml");\n    std::fs::write(output_file, buffer).expect("can not write file");\n}\n\nfn touch(p: &Path) {\n    std::fs::write(p, b"").expect("can not create file");', "output truncated in a helper before generation"),
+    ("C17", "R4", MAIN, "let from_file_path = Path::new(&from_file_name);", 'let from_file_path = Path::new(to_file_name.map_or(from_file_name.as_str(), |s| s.as_str()));', "input read from the --output name"),
     ("C17", "R2", MAIN, 'document.write_xml(&mut buffer).expect("can not write xml");', "let _ = document.write_xml(&mut buffer);", "write failure ignored"),
     ("C19", "R2", H, "            self.inner.serialize_attributes(attributes, namespace)", "            Ok((attributes, namespace))", "attributes not forwarded"),
     ("C19", "R3", H, "                inner: self.inner.clone(),", "                inner: Arc::new((*self.inner).clone()),", "deep clone"),
